@@ -1,0 +1,46 @@
+//! Verification instrumentation (compiled only with `--cfg saito_verif`).
+//!
+//! Records the steps taken by the wind/unwind loop of `Blockchain::validate` in a thread-local
+//! buffer and enforces a step budget so that a non-terminating reorganisation becomes a
+//! deterministic verdict for the harness instead of a hang.
+
+use std::cell::{Cell, RefCell};
+
+use crate::core::defs::SaitoHash;
+
+#[derive(Clone, Debug, PartialEq)]
+pub enum Step {
+    Wind(SaitoHash, bool),
+    Unwind(SaitoHash),
+    BudgetExceeded,
+}
+
+thread_local! {
+    static STEPS: RefCell<Vec<Step>> = RefCell::new(Vec::new());
+    static COUNT: Cell<usize> = Cell::new(0);
+}
+
+pub fn begin() {
+    COUNT.with(|c| c.set(0));
+}
+
+pub fn record(step: Step) {
+    STEPS.with(|s| s.borrow_mut().push(step));
+}
+
+/// called once per loop iteration; true when the budget for chains of total length `n` is spent
+pub fn over_budget(n: usize) -> bool {
+    let c = COUNT.with(|c| {
+        c.set(c.get() + 1);
+        c.get()
+    });
+    if c > 8 * n + 8 {
+        record(Step::BudgetExceeded);
+        return true;
+    }
+    false
+}
+
+pub fn drain() -> Vec<Step> {
+    STEPS.with(|s| std::mem::take(&mut *s.borrow_mut()))
+}
